@@ -6,6 +6,7 @@ import SaramaVerif.Model.OffsetMgr
   offset is int64, metadata strings are opaque values (only copied and compared), so no range hypotheses
   are needed: the functions contain comparisons and copies only.
 -/
+set_option linter.unusedSimpArgs false
 namespace Bridge.C06
 open Model.OffsetMgr
 
@@ -100,5 +101,105 @@ theorem nextAnswer_eq (s : Sys) (i : Nat) (ini : Int) (q : PState) (h : s.parts[
     nextAnswer s i ini = some (Gen.C06.nextOffset q.offset q.md ini 0) := by
   rw [nextOffset_eq]
   simp [nextAnswer, h, ho]
+
+
+/-! ### the body of handleResponse's loop (regenerated incl. the `fallthrough` clause) -/
+
+/-- reading of the ghost variable `told` (last error handed to the partition): `told0` = none yet,
+    `eInc` = ErrIncompleteResponse, a KError = its code -/
+def encTold (told0 eInc : Int) : Option Err → Int
+  | some .incomplete => eInc
+  | some (.code k) => k
+  | _ => told0
+
+private theorem classify_cases (k : Int) :
+    classify k =
+      if k = 0 then .commit
+      else if k = 6 ∨ k = 5 ∨ k = 15 ∨ k = 16 then .redispatch
+      else if k = 12 ∨ k = 28 then .tellUser
+      else if k = 14 then .nothing
+      else .tellRedispatch := by
+  by_cases h0 : k = 0; · subst h0; decide
+  by_cases h6 : k = 6; · subst h6; decide
+  by_cases h5 : k = 5; · subst h5; decide
+  by_cases h15 : k = 15; · subst h15; decide
+  by_cases h16 : k = 16; · subst h16; decide
+  by_cases h12 : k = 12; · subst h12; decide
+  by_cases h28 : k = 28; · subst h28; decide
+  by_cases h14 : k = 14; · subst h14; decide
+  by_cases h3 : k = 3; · subst h3; decide
+  simp [classify, clauseOf, respCases, h0, h6, h5, h15, h16, h12, h28, h14, h3]
+
+/-- a partition that is not in the request is skipped: `continue`, no effect -/
+theorem respBody_not_in_request (topicMissing present : Bool) (code told0 : Int) (released0 committed0 : Bool)
+    (eInc errTold : Int) (relNow comNow : Bool) :
+    Gen.C06.respBody true topicMissing present code told0 released0 committed0 eInc errTold relNow comNow =
+      (1, told0, released0, committed0) := by
+  simp [Gen.C06.respBody]
+
+/-- For a partition that is in the request, the loop body as the source has it now — missing topic, missing
+    partition entry, and every clause of `switch err` incl. the fallthrough of ErrUnknownTopicOrPartition
+    into default — does exactly what the model's `verdictEffects` says: whether updateCommitted is called
+    (with the request's block: the call statement is matched literally), whether the coordinator is
+    released, which error is handed to the partition; exit code 1 (`continue`) exactly for a missing entry. -/
+theorem respBody_in_request (topicMissing present : Bool) (code told0 eInc : Int) :
+    Gen.C06.respBody false topicMissing present code told0 false false eInc code true true =
+      ((if topicMissing = true ∨ present = false then 1 else 0),
+       encTold told0 eInc
+         (verdictEffects (if topicMissing = true ∨ present = false then .missing else .code code)).2.2,
+       (verdictEffects (if topicMissing = true ∨ present = false then .missing else .code code)).2.1,
+       (verdictEffects (if topicMissing = true ∨ present = false then .missing else .code code)).1) := by
+  cases topicMissing <;> cases present <;>
+    simp only [Gen.C06.respBody, Bool.false_eq_true, ↓reduceIte, not_true_eq_false, not_false_eq_true,
+      or_false, or_true, false_or, true_or, verdictEffects, encTold]
+  -- the entry is present: the clauses of the switch
+  simp only [Bool.true_eq_false, ↓reduceIte]
+  rw [classify_cases]
+  by_cases h0 : code = 0
+  · simp [h0, encTold]
+  by_cases hr : code = 6 ∨ code = 5 ∨ code = 15 ∨ code = 16
+  · have hr' : ((code = 6 ∨ code = 5) ∨ code = 15) ∨ code = 16 := by omega
+    simp [h0, hr, hr', encTold]
+  have hr' : ¬ (((code = 6 ∨ code = 5) ∨ code = 15) ∨ code = 16) := by omega
+  by_cases ht : code = 12 ∨ code = 28
+  · simp [h0, hr, hr', ht, encTold]
+  by_cases hn : code = 14
+  · simp [h0, hr, hr', ht, hn, encTold]
+  by_cases h3 : code = 3
+  · simp [h0, hr, hr', ht, hn, h3, encTold]
+  · simp [h0, hr, hr', ht, hn, h3, encTold]
+
+/-- the model's reply step is made of `verdictEffects`: success of the attempt for the partition … -/
+theorem pverdictFor_respond (vs : List Verdict) (i : Nat) :
+    pverdictFor (.respond vs) i = if (verdictEffects (verdictAt vs i)).1 = true then .ok else .fail := by
+  simp only [pverdictFor, verdictEffects]
+  cases verdictAt vs i with
+  | missing => simp
+  | code k => cases h : classify k <;> simp [h]
+
+/-- … dropping the cached coordinator … -/
+theorem replyDrops_respond (parts : List PState) (vs : List Verdict) :
+    replyDrops parts (.respond vs) =
+      parts.zipIdx.any fun (p, i) => p.inflight.isSome && (verdictEffects (verdictAt vs i)).2.1 := by
+  simp only [replyDrops]
+  congr 1
+  funext ⟨p, i⟩
+  simp only [verdictEffects]
+  cases verdictAt vs i with
+  | missing => simp
+  | code k => cases h : classify k <;> simp [h]
+
+/-- … and the errors handed to the partitions -/
+theorem stepErrs_respond (s : Sys) (vs : List Verdict) (h : s.active = true) :
+    stepErrs s (.reply (.respond vs)) =
+      s.parts.zipIdx.map fun (p, i) =>
+        if p.inflight.isSome then (verdictEffects (verdictAt vs i)).2.2.toList else [] := by
+  simp only [stepErrs, h, ↓reduceIte]
+  congr 1
+  funext ⟨p, i⟩
+  simp only [verdictEffects]
+  cases verdictAt vs i with
+  | missing => simp
+  | code k => cases hc : classify k <;> simp [hc]
 
 end Bridge.C06
